@@ -128,14 +128,6 @@ def octal4 (n : Nat) : String :=
   let d (k : Nat) := Char.ofNat (48 + (n / k) % 8)
   String.ofList [d 512, d 64, d 8, d 1]
 
-/-- `*` matches a run of non-separator characters; everything else is literal (the generated globs use
-    nothing else) -/
-partial def globMatch : List Char → List Char → Bool
-  | [], [] => true
-  | '*' :: ps, s => globMatch ps s || (match s with | c :: cs => c ≠ '/' && globMatch ('*' :: ps) cs | [] => false)
-  | p :: ps, c :: cs => p = c && globMatch ps cs
-  | _, _ => false
-
 def strPath (j : Json) (path : List String) : String :=
   match path with
   | [] => (j.getStr?).toOption.getD ""
@@ -229,10 +221,10 @@ def checkC20 (input : Json) (impl : Json) : PropOut := Id.run do
   let globs : Option (List String) := match getMember (some cfg) "commonConfig" |>.bind (getMember · "controllerGlobs") with
     | some (.arr xs) => some (xs.toList.map fun x => x.getStr?.toOption.getD "")
     | _ => none
-  let ctlFiles := [("ctl/a.go", "TagA"), ("ctl/b.go", "TagB")]
+  let ctlFiles := [("ctl/a.go", "TagA"), ("ctl/b.go", "TagB"), ("ctl/sub/c.go", "TagC"), ("ctl/sub/deep/d.go", "TagD")]
   let ctls := (ctlFiles.filter fun (f, _) => match globs with
     | none => true
-    | some gs => gs.any fun g => globMatch (cleanRel g).toList f.toList).map (·.2)
+    | some gs => gs.any fun g => Gleece.Config.globMatch g.toList f.toList).map (·.2)
   let sortS (l : List String) := (l.toArray.qsort (· < ·)).toList
   if !otherErr.isEmpty then
     -- accepted by every declared constraint, refused later
